@@ -11,7 +11,16 @@ def register(PROPS):
                  'Australia/Lord_Howe), from every DTSTART anchor (not only synchronised ones; Hijri-digit anchors for SCALE, anchors just before '
                  'a DST change for TZID), unterminated and with COUNT / UNTIL, is pushed through the real parser and popped up to the stated '
                  'number of times.  Checked on every stream: starts strictly increasing, none before DTSTART, none after UNTIL, never more than '
-                 'COUNT, nothing after the end-of-stream event, every start a calendar time.  Complete within that grammar and bound.',
+                 'COUNT, nothing after the end-of-stream event, every start a calendar time.  Complete within that grammar and bound.  '
+                 'COUNT across a rewrite (c16_rewrite): events DTSTART:20240101T120000Z with two RRULEs (every ordered pair of a menu of 6 rules, the first with a COUNT of a menu, '
+                 'the second with a COUNT or without) or three RRULEs (every ordered triple of 4 rules x 5 COUNT triples) are, for EVERY k from 0 to the number of their occurrences, parsed, '
+                 'popped k times, written the way echse merge --unroll / an echsd checkpoint / echsq list write a task (echs_task_icalify: every RRULE with the COUNT it has left, an exhausted one '
+                 'as COUNT=0), read back and followed to the end: occurrences before + after the rewrite must not exceed the sum of the COUNTs, the re-read stream must end, and no single rule '
+                 'may deliver more than its own COUNT (attributed by the hour of the day: each rule of the menu has its own BYHOUR).  '
+                 'Folded bounds (c16_folds): one-event calendars whose RRULE carries COUNT and/or UNTIL (7 rules) are written with the RRULE line folded at every position of the line, '
+                 'with SPACE and with HTAB, with LF and CRLF line ends, and pushed into the parser in one piece, in two pieces cut at EVERY byte of the text and in three pieces '
+                 '(a single byte in the middle) at every byte, finished both the way echse and the way echsd finish their input: never more than COUNT occurrences, none after UNTIL, the stream '
+                 'ends, and the occurrences are those of the unfolded event pushed in one piece.',
         'note': 'Compared as seconds in the frame the stream delivers (UTC, Gregorian).  DTSTART in that frame is what the same DTSTART line '
                 'yields as an event without RRULE; UNTIL is the unterminated stream\'s own 4th / 100th occurrence (or a second/day before), '
                 'written in UTC for TZID events and in the rule\'s scale for SCALE rules.  Termination is not judged here (C09): a pop that '
@@ -19,12 +28,18 @@ def register(PROPS):
                 'inside the C01 window are skipped and counted.  Under an extension the signature names only the parts that can interact '
                 'with it (time parts for TZID, date parts otherwise).',
         'rule': 'case = one event text (rule, extension, DTSTART, termination), all distinct; a unit (rule, extension, DTSTART) is one '
-                'supervised index and runs all its terminations; non-trivial = the unterminated stream of the unit delivered >= 2 occurrences',
+                'supervised index and runs all its terminations; non-trivial = the unterminated stream of the unit delivered >= 2 occurrences; '
+                'c16_rewrite: case = one event, evaluations = (rewrite position k, header form) round trips, non-trivial = the event has >= 2 occurrences; '
+                'c16_folds: case = (rule, fold blank, line end, fold position), evaluations = partitions pushed, non-trivial = the unfolded event gives one event with >= 2 occurrences and ends; '
+                'the sanitizer passes of both repeat the same cases and are not counted again',
         'bound': {
             'quick': 'BY-part subsets of size <= 1 (+ BYWEEKNO/BYDAY), INTERVAL {1,2}, 8 anchors + 4 Hijri + 2 DST anchors per zone, every '
-                     'extension, terminations {none, COUNT 2, COUNT 65, UNTIL on 4th, UNTIL before 100th}, 3000 pops or year 2099',
+                     'extension, terminations {none, COUNT 2, COUNT 65, UNTIL on 4th, UNTIL before 100th}, 3000 pops or year 2099; '
+                     'rewrite: 30 rule pairs x COUNT {1,3,64,70} x {none,1,3,64,70} + 24 rule triples x 5 COUNT triples, every k <= 160, 2 header forms, re-read followed for 400 pops; '
+                     'folds: 7 rules x every fold position x {SPACE,HTAB} x {LF,CRLF} x (uncut + every single cut + every 1-byte middle piece) x 2 ways to finish, 200 pops; both again under ASan',
             'thorough': 'subsets <= 2, INTERVAL {1,2,7}, 12 anchors + 5 Hijri + DST anchors, every extension + 5 fixed extension pairs, terminations '
-                        '{none, COUNT 1,2,63,64,65,130, UNTIL on/before the 4th and the 100th occurrence}, 10000 pops or year 2099',
+                        '{none, COUNT 1,2,63,64,65,130, UNTIL on/before the 4th and the 100th occurrence}, 10000 pops or year 2099; '
+                        'rewrite: COUNT menu {1,2,3,62,63,64,65,70,130}, every k <= 300; folds as quick (complete within its grammar)',
         },
         'drivers': [
             D('c03_tworules', ['mode=rules'], label='two-sources-rules', shards=4),
@@ -33,6 +48,10 @@ def register(PROPS):
             D('c16_streams', ['maxparts=1', 'intervals=1,2', 'anchors=8', 'terms=quick', 'pops=3000', '--case-timeout', '20'],
               ['maxparts=2', 'intervals=1,2,7', 'anchors=12', 'terms=full', 'pops=10000', 'pairs=1', '--case-timeout', '20', '--deadline', '540'],
               label='streams'),
+            D('c16_rewrite', ['counts=quick'], ['counts=full', 'kmax=300'], label='count-across-rewrite'),
+            D('c16_rewrite', ['counts=quick', 'nocount=1'], ['counts=full', 'kmax=300', 'nocount=1'], label='count-across-rewrite-asan', variant='asan'),
+            D('c16_folds', ['cuts=12', 'final=ED'], label='folded-bounds'),
+            D('c16_folds', ['cuts=12', 'final=ED', 'nocount=1'], label='folded-bounds-asan', variant='asan'),
         ],
         'assumptions': ['calendar years 1..2099 (the code counts leap years as y % 4): a stream is followed until its first occurrence after 2099; '
                         'table Hijri calendars until two years before the end of their tables',
@@ -40,5 +59,10 @@ def register(PROPS):
                         'UNTIL of a SCALE rule is written in the digits of the rule\'s scale (an UNTIL in Gregorian digits is compared field by field '
                         'with Hijri dates by the code and never ends the rule; which scale UNTIL is meant in is not defined anywhere, so that reading is left out)',
                         'TZID cases whose stream would look up the zone\'s last 32-bit transition (C07 finding, tzraw.c __find_trno) are left out and counted',
-                        'termination (hangs) is C09\'s subject'],
+                        'termination (hangs) is C09\'s subject',
+                        'c16_rewrite: WHICH times the re-read rules deliver is not judged (C05 finding remaining/DTSTART-shared: several RRULEs are written with one DTSTART), only how many; '
+                        'events containing a rule without BYHOUR (FREQ=WEEKLY alone) are judged in total only; a COUNT=0 or INTERVAL=0 typed in by hand is not an event RFC 5545 defines and is left out '
+                        '(COUNT=0 is only ever met as what the serialiser writes for an exhausted rule); writing goes through echs_icalify_init / echs_task_icalify / echs_icalify_fini (ref/c05_common.h)',
+                        'c16_folds: the folded text is legal RFC 5545 3.1 (line break + one SPACE or HTAB); the reference of the differs clause is the real parser on the unfolded text in one piece, '
+                        'the count / until / endless clauses need no reference (the bound is in the text)'],
     }
